@@ -53,8 +53,8 @@ def hook(put):
           r'\(!ws_contains_word\(ptr, "upgrade"\)\) \|\|.*?"Sec-WebSocket-Version"\)\) ==\s*NULL\) \|\|\s*\(strcmp\(ptr, "13"\) != 0\)\) \{\s*'
           r'status = NNG_HTTP_STATUS_BAD_REQUEST;.*?"Sec-WebSocket-Key"\)\) == NULL\) \|\|\s*\(ws_make_accept\(ptr, key\) != 0\)\) \{\s*'
           r'status = NNG_HTTP_STATUS_BAD_REQUEST;.*?proto = nng_http_get_header\(conn, "Sec-WebSocket-Protocol"\);\s*if \(proto == NULL\) \{\s*'
-          r'if \(l->proto != NULL\) \{\s*status = NNG_HTTP_STATUS_BAD_REQUEST;.*?\} else if \(\(l->proto == NULL\) \|\|\s*'
-          r'\(!ws_contains_word\(l->proto, proto\)\)\) \{\s*status = NNG_HTTP_STATUS_BAD_REQUEST;', hd, "ws_handler: order of the header tests")
+          r'if \(l->proto != NULL\) \{\s*status = NNG_HTTP_STATUS_BAD_REQUEST;.*?\} else if \(\(l->proto == NULL\) \|\| \(proto\[0\] == \'\\0\'\) \|\|\s*'
+          r'\(strpbrk\(proto, " ,"\) != NULL\) \|\|\s*\(!ws_contains_word\(l->proto, proto\)\)\) \{\s*status = NNG_HTTP_STATUS_BAD_REQUEST;', hd, "ws_handler: order of the header tests")
     ma = X.func_body(wss, "ws_make_accept")
     put("c11bWsKeyLen", int(X.one(r"if \(strlen\(key\) != (\d+)\) \{\s*return \(NNG_EINVAL\);", ma, "ws_make_accept key length").group(1)),
         "websocket.c ws_make_accept: strlen(key)")
